@@ -384,6 +384,27 @@ pub fn histories(cfg: &CfgSpec, tier: &str) -> Vec<Case> {
             ok(Op::ReceiveUnstaked { sender: P::HookStaker2, batch: 1, funds: Funds::Native }),
         ],
     );
+    // the native section alone is replaced (staker / collector rotation, channel unchanged): the accounts derived from the
+    // previous native addresses lose their rights at once, also for batches submitted before the rotation
+    add(
+        "reconfig-native",
+        vec![
+            resume(),
+            ok(stake(P::U(0), MintTo::None, vec![])),
+            ok(unstake(0)),
+            H::Advance(DAY),
+            ok(Op::Submit { sender: P::U(1) }),
+            ok(unstake(0)),
+            ok(Op::UpdateConfig { sender: P::Admin, sections: crate::cfgops::S_NATIVE }),
+            fails(rewards()),
+            H::Advance(UNBOND),
+            fails(recv(1)),
+            ok(Op::Submit { sender: P::U(1) }),
+            H::Advance(UNBOND),
+            fails(recv(2)),
+            fails(recv(1)),
+        ],
+    );
     // rounding never profits: stake, immediately unstake exactly the minted amount (alone or next to another request), submit
     add(
         "roundtrip",
